@@ -3,6 +3,11 @@
 import json, subprocess
 
 BUILT = {
+ "C16": dict(level="exploration",
+   technique="exhaustive enumeration of short byte strings over the significant alphabet + rapid glued-fragment strings + native fuzzing, oracle = span tiling / literal==bytes / independent string decoder",
+   text="Every byte string up to length 4 (quick) or 5 (thorough) over a 39-byte alphabet is lexed in both modes with Pos() observed around each token and checked for tiling, literal==span, string/comment spans, end-marker behaviour, interning and keyword typing; byte loss after special cases (malformed exponent, second dot) is a short-input defect that this finds completely within the bound. rapid adds 200-byte strings of glued token fragments; thorough adds coverage-guided fuzzing.",
+   note="Trusted: the harness's own reading of the string-escape syntax and whitespace set. NUL inside the input is treated as the lexer's in-band end sentinel (see evidence assumptions).",
+   ref="DESIGN.md section 3, C16"),
  "C20": dict(level="exploration",
    technique="small-scope exhaustive enumeration of insertion orders + rapid random sequences against a set-of-words model",
    text="Every insertion order of every subset of size<=4 of short words over two tiny alphabets (incl. bytes 0x00/0xff), all 2^14 subsets in three canonical orders, duplicates and the empty word are checked against a set model after every insertion (membership, prefix listing, common-prefix length); rapid adds long random words over arbitrary bytes and identifier sessions through State.RegisterTrie. Trie defects are order/prefix-shape defects, which are small-scope; beyond the bound only sampling speaks.",
